@@ -38,6 +38,20 @@ def discover():
     for eng in engines.ENGINES.values():
         for path in sorted(glob.glob(os.path.join(VERIF, eng.contracts_glob))):
             meta, in_block, stubs = {}, False, []
+            if path.endswith(".tmpl"):
+                for line in open(path):
+                    m = META_RE.match(line)
+                    if m:
+                        meta.setdefault(m.group(1), []).append(m.group(2).strip())
+                out.append({
+                    "name": meta["unit"][0], "engine": eng.name, "file": path, "line": 1,
+                    "props": [p.strip() for v in meta.get("props", []) for p in v.split(",") if p.strip()],
+                    "kind": " ".join(meta.get("kind", ["complete"])),
+                    "fns": [p.strip() for v in meta.get("fns", []) for p in v.split(",") if p.strip()],
+                    "tier": meta.get("tier", ["quick"])[0], "assumes": meta.get("assume", []), "stubs": [],
+                    "timeout": int(meta.get("timeout", ["300"])[0]), "expect": "pass", "cex": meta.get("cex", []),
+                })
+                continue
             for ln, line in enumerate(open(path), 1):
                 m = META_RE.match(line)
                 if m:
@@ -192,6 +206,11 @@ def run_property(prop, tier, seed):
         except Exception as e:  # noqa: BLE001
             rec["counterexample_error"] = repr(e)
         suffix = ""
+        if cex and cex.get("via"):
+            h = dict(h, _via=cex["via"])
+            rec["counterexample_from"] = "paired Kani harness " + cex["via"]["name"]
+            rec["replay_harness"] = cex["via"]["name"]
+            rec["replay_engine"] = cex["via"]["engine"]
         if cex and cex.get("values") is not None:
             rec["values"] = cex["values"]
             rec["playback_source"] = cex.get("source", "")
@@ -304,7 +323,9 @@ def do_replay(path):
         print("replay file carries no concrete input:", rec.get("note", ""))
         print("failed obligation:", rec["obligation"])
         return 2
-    h = next(h for h in discover() if h["name"] == rec["harness"])
+    hname = rec.get("replay_harness", rec["harness"])
+    eng = engines.ENGINES[rec.get("replay_engine", rec["engine"])]
+    h = next(h for h in discover() if h["name"] == hname)
     nat = eng.native_replay(h, rec["values"], log)
     print(json.dumps(nat, indent=1))
     return 1 if nat.get("reproduced") else 0
